@@ -28,7 +28,9 @@ I = ['p', 'Integer', {}]
 PROTOS = ['xml', 'soap11', 'soap12', 'json', 'yaml', 'msgpack', 'msgpackrpc', 'http']
 CODES = ['Client', 'Server', 'Client.A', 'Server.A.B.C', 'Clientele', 'Other.X']
 MESSAGES = [('ascii', 'plain message'), ('non-ascii', 'm\xe9ssage ☃ \U0001F600'), ('markup', '<b>&amp; "q" \'s\' ]]>'), ('empty', '')]
-DETAILS = [('none', None), ('flat', {'k': 'v', 'n': '1'}), ('nested', {'outer': {'inner': 'x', 'more': {'deep': 'y'}}})]
+DETAILS = [('none', None), ('flat', {'k': 'v', 'n': '1'}), ('nested', {'outer': {'inner': 'x', 'more': {'deep': 'y'}}}),
+           # leaves that are not strings, the falsy ones included (compared as their text)
+           ('scalars', {'count': 0, 'ratio': 0.0, 'flag': False, 'n': 5, 'on': True, 'nested': {'zero': 0, 'one': 1}})]
 BUILTIN = ['ResourceNotFoundError', 'RequestTooLongError', 'RequestNotAllowed', 'InvalidCredentialsError', 'ValidationError',
            'InternalError', 'ArgumentError']
 EXC_TYPES = ['KeyError', 'ValueError', 'RuntimeError', 'ZeroDivisionError', 'AssertionError', 'UnicodeDecodeError', 'Custom', 'StrRaises',
@@ -47,7 +49,7 @@ def fault_cases(tier):
     for cls in ('Fault', 'PubFault'):
         for code in CODES:
             for (ml, msg), (dl, det) in itertools.product(MESSAGES, DETAILS):
-                if tier == 'quick' and cls == 'PubFault' and (ml not in ('ascii', 'non-ascii') or dl == 'nested'):
+                if tier == 'quick' and cls == 'PubFault' and (ml not in ('ascii', 'non-ascii') or dl in ('nested', 'scalars')):
                     continue
                 out.append({'kind': 'fault', 'cls': cls, 'code': code, 'ml': ml, 'msg': msg, 'dl': dl, 'detail': det})
     for (ml, msg) in MESSAGES:
@@ -230,6 +232,8 @@ def norm_detail(d):
         return {(k.decode('utf8') if isinstance(k, bytes) else k): norm_detail(v) for k, v in d.items()}
     if isinstance(d, bytes):
         return d.decode('utf8')
+    if isinstance(d, (bool, int, float)):
+        return str(d)
     return d
 
 
@@ -349,7 +353,10 @@ def run_shard(shard, only=None):
                             oc = 'leak'
                 if b'Result' in body and transport != 'client':
                     V('result-sent', '', 'a result member is present in a fault response: %r' % (body[:200],))
-                if status is not None:
+                if transport == 'wsgi' and not isinstance(status, str):
+                    V('http-status', 'not-a-status-line', 'start_response was called with status %r' % (status,))
+                    oc = 'status'
+                elif status is not None:
                     st = status[:3]
                     if proto in ('soap11', 'soap12'):
                         wst = '500'
